@@ -47,9 +47,8 @@ pub fn run_tree(o: &Opts) {
     let mut it = Interp { uids: &uids, calls: vec![], ks: vec![] };
     let exp = it.run(&root, &st0);
     let got_calls = observed_calls(&w, &trace, &|e| uid_of_ev(e));
-    check_native("entry_points_invoked_in_specified_order", got_calls == it.calls, || {
-        format!("expected {:?} got {:?}", it.calls, got_calls)
-    });
+    let (gc, ec): (Vec<_>, Vec<_>) = (got_calls.iter().map(|c| c.core()).collect(), it.calls.iter().map(|c| c.core()).collect());
+    check_native("entry_points_invoked_in_specified_order", gc == ec, || format!("expected {:?} got {:?}", ec, gc));
     if it.calls.iter().any(|c| c.entry == "reply" && c.sub_ok == Some(false)) {
         witness("some_failure_caught");
     }
